@@ -473,9 +473,28 @@ func init() {
 						out = append(out, flatQE(g.SubMulExtension(a, b, cc))...)
 						out = append(out, flatAlg(g.MulExtensionAlgebra(algAt(in, 0), gl.QuadraticExtensionAlgebraVariable{cc, qeAt(in, 3)}))...)
 						out = append(out, flatQE(g.ExpExtension(a, 11))...)
+						// shared-operand shapes: an unreduced accumulator used as addend several times
+						// (also next to a constant multiplicand) and read again afterwards; one
+						// variable in several operand positions. A builder that updates MulAcc's first
+						// argument in place must not be able to corrupt a value still in use.
+						d4 := qeAt(in, 3)
+						kc := gl.QuadraticExtensionVariable{gl.NewVariable(3), gl.NewVariable(5)}
+						tt := g.MulAddExtensionNoReduce(a, b, cc)
+						r1 := g.MulAddExtensionNoReduce(a, b, tt)
+						r2 := g.MulAddExtensionNoReduce(cc, d4, tt)
+						r3 := g.MulAddExtensionNoReduce(a, kc, tt)
+						out = append(out, flatQE(g.ReduceExtension(r1))...)
+						out = append(out, flatQE(g.ReduceExtension(r2))...)
+						out = append(out, flatQE(g.ReduceExtension(r3))...)
+						out = append(out, flatQE(g.ReduceExtension(tt))...)
+						out = append(out, flatQE(g.MulExtension(a, a))...)
+						out = append(out, flatQE(g.AddExtension(a, a))...)
+						out = append(out, flatQE(g.SubMulExtension(a, a, b))...)
+						out = append(out, flatQE(g.MulAddExtension(a, a, a))...)
+						out = append(out, flatQE(g.MulExtension(a, b))...) // a, b must still be themselves
 						return out
 					}
-					comp, err := gadget.Compile(sys, fn, 8, 14, gadget.PadCommit, nil)
+					comp, err := gadget.Compile(sys, fn, 8, 32, gadget.PadCommit, nil)
 					if err != nil {
 						return fw.Inconcl("compile: " + err.Error())
 					}
@@ -495,6 +514,12 @@ func init() {
 						want := eOut(ref.EMul(es[0], es[1]), ref.EDiv(es[0], es[1]), ref.EAdd(ref.EMul(es[0], es[1]), es[2]), ref.EMul(ref.ESub(es[0], es[1]), es[2]))
 						want = append(want, aOut(ref.AMul(ref.A{es[0], es[1]}, ref.A{es[2], es[3]}))...)
 						want = append(want, eOut(ref.EExp(es[0], 11))...)
+						{
+							a, b, cc, d4, kc := es[0], es[1], es[2], es[3], ref.E{3, 5}
+							tt := ref.EAdd(ref.EMul(a, b), cc)
+							want = append(want, eOut(ref.EAdd(ref.EMul(a, b), tt), ref.EAdd(ref.EMul(cc, d4), tt), ref.EAdd(ref.EMul(a, kc), tt), tt,
+								ref.EMul(a, a), ref.EAdd(a, a), ref.EZero, ref.EAdd(ref.EMul(a, a), a), ref.EMul(a, b))...)
+						}
 						outs := make([]*big.Int, len(want))
 						for i := range want {
 							outs[i] = bu(want[i])
